@@ -755,6 +755,9 @@ func (in *inst) indexAddr(n *vnode, st *State, x *ssa.IndexAddr) {
 		in.safety(n, st, "index", and("(bvsle #x0000000000000000 "+idx+")", "(bvslt "+idx+" (slen "+base.T+"))"), x.Pos())
 		ea := fv.def("ea", "Loc", lelem("(sarr "+base.T+")", "(bvadd (soff "+base.T+") "+idx+")"))
 		fv.elemLocs[ea] = true
+		if fv.eng.nilable[sliceOrigin(x.X)] {
+			fv.nilableLocs[ea] = true
+		}
 		fv.assumePtrType(st.reach, Val{K: KLoc, T: ea, Typ: x.Type()})
 		// every index the code uses is an instantiation point for assumed "forall i in .." clauses
 		if fv.boundDepth == 0 && !fv.hasSkolem(idx) {
@@ -1484,4 +1487,26 @@ func smallReturnBlock(b *ssa.BasicBlock) bool {
 		}
 	}
 	return true
+}
+
+// sliceOrigin names the struct field a slice value was just read from
+// (canonType(T)#field), or "" when the slice has another origin.
+func sliceOrigin(v ssa.Value) string {
+	u, ok := v.(*ssa.UnOp)
+	if !ok || u.Op != token.MUL {
+		return ""
+	}
+	fa, ok := u.X.(*ssa.FieldAddr)
+	if !ok {
+		return ""
+	}
+	pt, ok := types.Unalias(fa.X.Type()).Underlying().(*types.Pointer)
+	if !ok {
+		return ""
+	}
+	st, ok := pt.Elem().Underlying().(*types.Struct)
+	if !ok || fa.Field >= st.NumFields() {
+		return ""
+	}
+	return canonType(pt.Elem()) + "#" + st.Field(fa.Field).Name()
 }
